@@ -230,6 +230,11 @@ def gen_case(rng):
             shared_path = best
     p_again = rng.choice([0.0, 0.25, 0.4])
     p_deep = rng.choice([0.0, 0.0, 0.0, 0.15, 0.4])
+    # "wide" runs: objects with hundreds of never-seen property names, so that
+    # any bounded per-process memo (pattern matches, lookups) fills up and its
+    # eviction path runs while several threads are inside it
+    wide = hot and rng.random() < 0.06
+    p_wide = 0.7 if wide else 0.0
     earlier = []
     shared_value = None
     if rng.random() < 0.15:
@@ -245,6 +250,13 @@ def gen_case(rng):
                 continue
             if rng.random() < 0.05:
                 arg = {"np": 1}
+            elif rng.random() < p_wide and getattr(node, "properties", None) is not None:
+                val = gen.instance(rng, node)
+                if not isinstance(val, dict):
+                    val = {}
+                for _ in range(rng.randint(120, 220)):
+                    val[rng.choice(["k", "x_", "id", "n"]) + str(rng.randrange(10 ** 6))] = rng.choice(gen.INTS + gen.STRS)
+                arg = {"v": val}
             elif rng.random() < p_deep:
                 # deeply nested data (an untyped position accepts any nesting)
                 val = rng.choice([0, "a", None])
@@ -293,7 +305,15 @@ def gen_case(rng):
             "prio": {str(t): p for t, p in zip(range(n_threads), rng.sample(range(10, 10 + n_threads), n_threads))},
             "change_points": sorted(rng.randint(1, est) for _ in range(depth)),
         }
-    opcodes = rng.random() < (0.1 if _opcode_tier() else 0.0)
+    roll_gran = rng.random()
+    if not _opcode_tier():
+        opcodes = False
+    elif roll_gran < 0.1:
+        opcodes = True  # every bytecode of the package
+    elif roll_gran < 0.35:
+        opcodes = "sites"  # every bytecode inside functions that contain a write site
+    else:
+        opcodes = False
     case = {
         "prop": PROP,
         "world": world,
@@ -307,11 +327,16 @@ def gen_case(rng):
         "hot": hot,
         "share_values": bool(shared_value is not None or p_again) and rng.random() < 0.6,
     }
+    if wide:
+        case["wide"] = True
+        case["step_cap"] = 600000
+        case["opcodes"] = opcodes = rng.choice([False, "sites", "sites"])
     # execute once under the policy to obtain the explicit schedule
     sch = sched.Scheduler(
         n_threads,
         policy=make_policy(policy, random.Random(case["policy_seed"])),
         opcodes=opcodes,
+        step_cap=case.get("step_cap", sched.STEP_CAP),
     )
     built = build(world)
     _run(case, sch, built)
@@ -356,8 +381,9 @@ def exec_case(case, log, stats):
     sch = sched.Scheduler(
         len(case["threads"]),
         segments=case["segments"],
-        opcodes=bool(case.get("opcodes")),
+        opcodes=case.get("opcodes") or False,
         keep_sites=True,
+        step_cap=case.get("step_cap", sched.STEP_CAP),
     )
     outcomes, digest = _run(case, sch, built)
     log.add("schedule", digest, sch.step, sch.switches)
@@ -374,10 +400,14 @@ def exec_case(case, log, stats):
     stats.inc("preemptions", sch.switches)
     stats.inc("threads", len(case["threads"]))
     stats.inc("policy:" + case.get("policy", {}).get("kind", "replay"))
-    if case.get("opcodes"):
+    if case.get("opcodes") == "sites":
+        stats.inc("hybrid_granularity_runs(opcodes in write-site functions)")
+    elif case.get("opcodes"):
         stats.inc("opcode_granularity_runs")
     if case.get("hot"):
         stats.inc("hot_shared_model_runs")
+    if case.get("wide"):
+        stats.inc("wide_runs(hundreds of fresh property names)")
     if case.get("share_values"):
         stats.inc("runs_sharing_input_objects_between_calls")
     if sch.capped:
